@@ -36,6 +36,7 @@ class CoreGen:
         self.loop_args = list(range(nargs))     # arguments not yet used as a loop trip count
         rng.shuffle(self.loop_args)
         self.consts = set()
+        self.conds = []
 
     def count(self, k):
         self.hist[k] = self.hist.get(k, 0) + 1
@@ -79,9 +80,16 @@ class CoreGen:
     def cond(self):
         r = self.rng
         self.count("cond")
-        op = r.choice(["EQ", "EQ", "LT", "GT", "SLT", "SGT"])
+        if self.conds and r.random() < 0.25:
+            # the very same condition again: decided by the quick checks of Exec.check (`cond in path`,
+            # `simplify(Not(cond)) in path`) on whichever branch we are, or by the concretization after `arg == const`
+            c, i, op = r.choice(self.conds)
+            self.count("cond:repeated")
+        else:
+            c, i, op = self.fresh_const(), r.randrange(self.nargs), r.choice(["EQ", "EQ", "LT", "GT", "SLT", "SGT"])
+            self.conds.append((c, i, op))
         self.count("cond:" + op)
-        return [("push", self.fresh_const())] + self.arg() + [op]
+        return [("push", c)] + self.arg(i) + [op]
 
     def stmt(self, d):
         r = self.rng
@@ -199,6 +207,17 @@ def impl_summary(code: bytes, nargs: int, loop: int, depth: int, oracle: str):
     return f"ends={','.join(sorted(ends)) if ends else '-'} bounded={len(sr.bounded_loops)} depthcut={depthcut}"
 
 
+def _canon(summary: str) -> str:
+    """sort the end states of an `ends=… bounded=… depthcut=…` summary (the two sides sort before / after stripping tags)"""
+    if not summary.startswith("ends="):
+        return summary
+    head, _, rest = summary.partition(" ")
+    ends = head[len("ends="):]
+    if ends != "-":
+        ends = ",".join(sorted(ends.split(",")))
+    return f"ends={ends} {rest}"
+
+
 def compare_core(ctx, n):
     """n generated programs, each under one random configuration (--loop, --depth, oracle). Returns the list of
     mismatches (dicts: code, nargs, loop, depth, oracle, impl, model); empty when model and implementation agree."""
@@ -236,7 +255,8 @@ def compare_core(ctx, n):
     stale = []
     for (code, nargs, loop, depth, oracle), rep in zip(cases, replies):
         impl = impl_summary(code, nargs, loop, depth, oracle)
-        model = rep.replace("!", "").rsplit(" fuelout=", 1)[0]
+        model = _canon(rep.replace("!", "").rsplit(" fuelout=", 1)[0])   # `!` = the model's tag of the jumpi-invalid-dest site
+        impl = _canon(impl)
         ctx.case(("core", code, loop, depth, oracle))
         ctx.count("core:oracle-" + oracle)
         ctx.count("core:depth-limited" if depth else "core:depth-unlimited")
